@@ -519,6 +519,50 @@ func runCodecs(o *out, r *rng, thorough bool) {
 			}
 		}
 	}
+	// decoding into a value that has been used before: the decoded value must be the encoded one in every respect --
+	// re-encoding, and for chains also the (lazily cached) chain key and the bytes signed for a vote on it
+	for _, c := range cs {
+		if len(c.values) < 2 {
+			continue
+		}
+		for vi := range c.values {
+			a, b := c.values[vi], c.values[(vi+1)%len(c.values)]
+			ba, err1 := enc(a)
+			bb, err2 := enc(b)
+			if err1 != nil || err2 != nil || bytes.Equal(ba, bb) {
+				continue
+			}
+			x := c.fresh()
+			if dec(x, ba) != nil {
+				continue
+			}
+			if ch, ok := x.(*gpbft.ECChain); ok {
+				_ = ch.Key() // the value is in use: its key has been computed
+			}
+			if err := dec(x, bb); err != nil {
+				o.violate("every wire and storage type decodes to an equal value after encoding", "c14-redecode-error", map[string]any{"type": c.name, "value": vi}, err.Error())
+				continue
+			}
+			if b2, err := enc(x); err != nil || !bytes.Equal(b2, bb) {
+				o.violate("every wire and storage type decodes to an equal value after encoding", "c14-redecode-differs", map[string]any{"type": c.name, "value": vi}, "decoded into a used value")
+			}
+			if ch, ok := x.(*gpbft.ECChain); ok {
+				want := b.(*gpbft.ECChain)
+				if ch.Key() != want.Key() {
+					o.violate("chain keys computed for a decoded chain agree with the directly computed key of the same tipsets", "c14-decoded-chain-stale-key",
+						map[string]any{"type": c.name, "first": fmt.Sprint(a), "then": fmt.Sprint(b)},
+						fmt.Sprintf("decoding chain B into a chain that held A (key computed): Key() = %x, Key(B) = %x, Key(A) = %x", ch.Key(), want.Key(), a.(*gpbft.ECChain).Key()))
+				}
+				p1 := gpbft.Payload{Instance: 1, Round: 2, Phase: gpbft.PREPARE_PHASE, SupplementalData: e.supp, Value: ch}
+				p2 := gpbft.Payload{Instance: 1, Round: 2, Phase: gpbft.PREPARE_PHASE, SupplementalData: e.supp, Value: want}
+				if !bytes.Equal(p1.MarshalForSigning(verifNet), p2.MarshalForSigning(verifNet)) {
+					o.violate("the bytes signed for a vote bind the value chain", "c14-decoded-chain-signing-bytes",
+						map[string]any{"type": c.name, "first": fmt.Sprint(a), "then": fmt.Sprint(b)}, "the payload over the decoded chain signs different bytes than the payload over an equal chain")
+				}
+			}
+			o.count("codec-redecode", c.name+fmt.Sprint(vi), true)
+		}
+	}
 	// the zstd wrapper: round trip, determinism, and the decompression bound
 	cb := encoding.NewCBOR[*gpbft.PartialGMessage]()
 	zs, err := encoding.NewZSTD[*gpbft.PartialGMessage]()
